@@ -209,29 +209,30 @@ def run_fd(c):
     psiZ = lambda a, b: a * F("Bp_R", a, b)           # noqa: E731
     g2 = psiR(Rp, Zp) ** 2 + psiZ(Rp, Zp) ** 2
     B = lambda a, b: np.sqrt(F("B2", a, b))           # noqa: E731
+    # (exposed value, central difference, the function that was differenced)
     rel = {
-        "psiR_is_ddR_psi": (psiR(Rp, Zp), dR(lambda a, b: F("psi", a, b))),
-        "psiZ_is_ddZ_psi": (psiZ(Rp, Zp), dZ(lambda a, b: F("psi", a, b))),
-        "d2psidR2": (v["d2psidR2"], dR(psiR)),
-        "d2psidZ2": (v["d2psidZ2"], dZ(psiZ)),
-        "d2psidRdZ_a": (v["d2psidRdZ"], dZ(psiR)),
-        "d2psidRdZ_b": (v["d2psidRdZ"], dR(psiZ)),
-        "dBRdR": (v["dBRdR"], dR(lambda a, b: F("Bp_R", a, b))),
-        "dBRdZ": (v["dBRdZ"], dZ(lambda a, b: F("Bp_R", a, b))),
-        "dBZdR": (v["dBZdR"], dR(lambda a, b: F("Bp_Z", a, b))),
-        "dBZdZ": (v["dBZdZ"], dZ(lambda a, b: F("Bp_Z", a, b))),
-        "dBzetadR": (v["dBzetadR"], dR(lambda a, b: F("Bzeta", a, b))),
-        "dBzetadZ": (v["dBzetadZ"], dZ(lambda a, b: F("Bzeta", a, b))),
-        "dB2dR": (v["dB2dR"], dR(lambda a, b: F("B2", a, b))),
-        "dB2dZ": (v["dB2dZ"], dZ(lambda a, b: F("B2", a, b))),
-        "dBdR": (v["dBdR"], dR(B)),
-        "dBdZ": (v["dBdZ"], dZ(B)),
-        "f_R": (v["f_R"] * g2, psiR(Rp, Zp)),
-        "f_Z": (v["f_Z"] * g2, psiZ(Rp, Zp)),
+        "psiR_is_ddR_psi": (psiR(Rp, Zp), dR(lambda a, b: F("psi", a, b)), v["psi"]),
+        "psiZ_is_ddZ_psi": (psiZ(Rp, Zp), dZ(lambda a, b: F("psi", a, b)), v["psi"]),
+        "d2psidR2": (v["d2psidR2"], dR(psiR), psiR(Rp, Zp)),
+        "d2psidZ2": (v["d2psidZ2"], dZ(psiZ), psiZ(Rp, Zp)),
+        "d2psidRdZ_a": (v["d2psidRdZ"], dZ(psiR), psiR(Rp, Zp)),
+        "d2psidRdZ_b": (v["d2psidRdZ"], dR(psiZ), psiZ(Rp, Zp)),
+        "dBRdR": (v["dBRdR"], dR(lambda a, b: F("Bp_R", a, b)), v["Bp_R"]),
+        "dBRdZ": (v["dBRdZ"], dZ(lambda a, b: F("Bp_R", a, b)), v["Bp_R"]),
+        "dBZdR": (v["dBZdR"], dR(lambda a, b: F("Bp_Z", a, b)), v["Bp_Z"]),
+        "dBZdZ": (v["dBZdZ"], dZ(lambda a, b: F("Bp_Z", a, b)), v["Bp_Z"]),
+        "dBzetadR": (v["dBzetadR"], dR(lambda a, b: F("Bzeta", a, b)), v["Bzeta"]),
+        "dBzetadZ": (v["dBzetadZ"], dZ(lambda a, b: F("Bzeta", a, b)), v["Bzeta"]),
+        "dB2dR": (v["dB2dR"], dR(lambda a, b: F("B2", a, b)), v["B2"]),
+        "dB2dZ": (v["dB2dZ"], dZ(lambda a, b: F("B2", a, b)), v["B2"]),
+        "dBdR": (v["dBdR"], dR(B), np.sqrt(v["B2"])),
+        "dBdZ": (v["dBdZ"], dZ(B), np.sqrt(v["B2"])),
+        "f_R": (v["f_R"] * g2, psiR(Rp, Zp), None),
+        "f_Z": (v["f_Z"] * g2, psiZ(Rp, Zp), None),
     }
     # div B from the exposed derivatives, relative to the size of its terms
     divb = v["dBRdR"] + v["Bp_R"] / Rp + v["dBZdZ"]
-    rel["divB"] = (divb, np.zeros_like(divb))
+    rel["divB"] = (divb, np.zeros_like(divb), None)
     scale_div = np.max(np.abs(v["dBRdR"])) + np.max(np.abs(v["dBZdZ"])) + 1e-300
     # points where a relation is meaningful: a central difference across the kink of fpol at the boundary flux / a 0/0 are excluded
     keep = np.ones(len(Rp), dtype=bool)
@@ -241,13 +242,19 @@ def run_fd(c):
             if pb is not None:
                 keep &= np.abs(pv - pb) > 20 * h * np.sqrt(g2) + 1e-7 * (np.max(psi) - np.min(psi))
     out = {}
-    for k, (a, b) in rel.items():
+    for k, (a, b, fn_) in rel.items():
         m = keep & np.isfinite(a) & np.isfinite(b)
         if k in ("dBdR", "dBdZ"):
             m &= v["B2"] > 1e-12 * np.max(v["B2"])
         if k in ("f_R", "f_Z"):
             m &= g2 > 1e-10 * np.max(g2)
         sc = scale_div if k == "divB" else max(np.max(np.abs(a[m]), initial=0.0), np.max(np.abs(b[m]), initial=0.0), 1e-300)
+        if fn_ is not None:
+            # a central difference of a function of size |f| carries a rounding error of about eps |f| / h: the residual is measured against
+            # a scale that is at least 1e6 eps |f| / h (10 times that error at the 1e-5 allowed), so that a derivative far smaller than the
+            # function it belongs to (d(Bzeta)/dZ for a weak poloidal field) is not judged on rounding noise
+            fm = np.abs(np.asarray(fn_, dtype=float)[m])
+            sc = max(sc, 1.0e6 * 2.2e-16 * float(np.max(fm, initial=0.0)) / h)
         out[k] = {"res": q(np.max(np.abs(a[m] - b[m]), initial=0.0) / sc, 1e9), "n": int(np.sum(m)),
                   "nonfinite": int(np.sum(keep & ~(np.isfinite(a) & np.isfinite(b)) & (v["B2"] > 1e-12 * np.max(v["B2"]) if k in ("dBdR", "dBdZ") else True)
                                           & (g2 > 1e-10 * np.max(g2) if k in ("f_R", "f_Z") else True)))}
